@@ -644,7 +644,6 @@ def case_ws_pair(acc, clist, slist):
         if rmaker.messages() != [m.marshal()]:
             acc.bad("C13|not-delivered-to-peer|websocket-%s|%s" % (name, fw),
                     d + "; peer session got %s" % (rmaker.messages(),), rarg)
-    p.c.proto.close() if False else None
     p.s.peer_drop(False)
     p.s.settle()
     p.drops()
@@ -663,7 +662,6 @@ ALL_DEFAULT = ["cbor.batched", "cbor", "msgpack.batched", "msgpack", "ubjson.bat
 
 def job_ws_ref(a, acc):
     offers = sublists(WS_REF_OFFERS, 3 if a["tier"] == "thorough" else 2)
-    offers += [[o, o] for o in WS_REF_OFFERS[:3]]
     cases = []
     for sl in WS_REF_SERVERS:
         for off in offers:
@@ -758,3 +756,526 @@ def case_ws_ref(acc, a):
     ep.finish()
     if len(ep.maker.closes()) != 1:
         acc.bad("C13|onclose-count|%s|%d" % (tag, len(ep.maker.closes())), d, a)
+
+
+# ---------------------------------------------------------------------------
+# D. message sequences under segmentation (reference peer -> real endpoint)
+# ---------------------------------------------------------------------------
+_alpha = {}
+
+
+def alphabet():
+    if not _alpha:
+        from autobahn.wamp import message as M, role
+        _alpha.update({
+            "hello": M.Hello("realm1", {"subscriber": role.RoleSubscriberFeatures()}),
+            "welcome": M.Welcome(1234, {"broker": role.RoleBrokerFeatures()}),
+            "publish": M.Publish(7, "com.example.topic", args=[1, "two"], kwargs={"k": [3]}),
+            "event": M.Event(11, 22, args=["héllo"]),
+            "call": M.Call(8, "com.example.add", args=[2, 3]),
+            "published": M.Published(7, 99),
+            "unregistered": M.Unregistered(5),
+            "result": M.Result(8, args=[5]),
+        })
+    return _alpha
+
+
+NAMES = ["hello", "welcome", "publish", "event", "call", "published", "unregistered", "result"]
+NAMES3 = ["publish", "unregistered", "event"]
+
+
+def sequences(tier):
+    import itertools
+    seqs = [[n] for n in NAMES] + [list(p) for p in itertools.product(NAMES, repeat=2)]
+    seqs += [list(p) for p in itertools.product(NAMES if tier == "thorough" else NAMES3, repeat=3)]
+    return seqs
+
+
+def peer_frame(tkind, role, payload, binary, ftype=0, rsv=0):
+    if tkind == "rs":
+        from ref import rawsocket as R
+        return R.frame(payload, ftype, reserved_bits=rsv)
+    from harness import wamp_l2 as L
+    from ref import ws_frames as F
+    return F.encode(F.OP_BIN if binary else F.OP_TEXT, payload,
+                    mask=L.MASK if role == "server" else None)
+
+
+_streams = {}
+
+
+def build_stream(tkind, role, sid, seq):
+    """-> (octets, [(start, header_len, end)], expected marshals)"""
+    key = (tkind, role, sid, tuple(seq))
+    if key not in _streams:
+        from harness import wamp_l2 as L
+        if len(_streams) > 2000:
+            _streams.clear()
+        out = b""
+        bounds = []
+        exp = []
+        for n in seq:
+            m = alphabet()[n]
+            o, b = L.wamp_octets(sid, m)
+            fr = peer_frame(tkind, role, o, b)
+            bounds.append((len(out), len(fr) - len(o), len(out) + len(fr)))
+            out += fr
+            exp.append(L.wamp_decode(sid, o, b)[0].marshal())
+        _streams[key] = (out, bounds, exp)
+    return _streams[key]
+
+
+def seg_cutsets(n, bounds, tier, seqlen):
+    import itertools
+    if n <= 12:
+        return [[i for i in range(1, n) if mask >> (i - 1) & 1] for mask in range(1 << (n - 1))]
+    out = [[], list(range(1, n))]
+    near = set()
+    for (st, hl, en) in bounds:
+        for x in (st + 1, st + 2, st + hl - 1, st + hl, st + hl + 1, en - 1, en, en + 1):
+            if 0 < x < n:
+                near.add(x)
+    if n <= 160 or tier == "thorough":
+        singles = range(1, n)
+    else:
+        singles = sorted(x for x in range(1, n) if x % 5 == 0 or any(abs(x - y) <= 6 for y in near))
+    out += [[x] for x in singles]
+    if seqlen <= 2 or tier == "thorough":
+        out += [list(p) for p in itertools.combinations(sorted(near), 2)]
+    for cs in (2, 3, 7):
+        out.append(list(range(cs, n, cs)))
+    return out
+
+
+def job_seq(a, acc):
+    tkind, role, sid, tier = a["tkind"], a["role"], a["sid"], a["tier"]
+    seqs = sequences(tier)[a["part"]::a["parts"]]
+    nseg = 0
+    for seq in seqs:
+        stream, bounds, exp = build_stream(tkind, role, sid, seq)
+        cs = seg_cutsets(len(stream), bounds, tier, len(seq))
+        nseg += len(cs)
+        for cuts in cs:
+            case_seq(acc, tkind, role, sid, seq, cuts, False)
+        if len(seq) <= 2:
+            # opening handshake octets coalesced with the stream: cuts given relative to the stream start
+            for cuts in ([], [-1], [1], [-2, 2], [-1, bounds[0][1]], [0, bounds[0][2]]):
+                case_seq(acc, tkind, role, sid, seq, cuts, True)
+    acc.samples.append({"kind": "seq", "transport": tkind, "role": role, "sid": sid,
+                        "sequences": len(seqs), "segmentations": nseg})
+
+
+def case_seq(acc, tkind, role, sid, seq, cuts, with_hs):
+    from mc.core import cut
+    from harness import wamp_l2 as L
+    from ref import rawsocket as R
+    fw = acc.fw
+    acc.evals += 1
+    acc.inc("nontrivial")
+    stream, bounds, exp = build_stream(tkind, role, sid, seq)
+    tag = "%s-%s|%s" % ("rawsocket" if tkind == "rs" else "websocket", role, fw)
+    rarg = {"kind": "seq1", "tkind": tkind, "role": role, "sid": sid, "seq": seq, "cuts": cuts,
+            "with_hs": with_hs}
+    if with_hs:
+        ep = L.Endpoint(tkind, role, [sid])
+        if tkind == "ws":
+            proto = "wamp.2." + sid
+            pre = L.ws_request([proto]) if role == "server" else L.ws_response(ep.take(), proto)
+        else:
+            ep.take()
+            pre = R.handshake(15, L.rs_id(sid))
+        data = pre + stream
+        segs = cut(data, [len(pre) + c for c in cuts])
+    else:
+        ep = L.open_endpoint(tkind, role, sid)
+        segs = cut(stream, cuts)
+    ep.take()
+    for s_ in segs:
+        if not ep.feed(s_):
+            break
+    ep.settle()
+    got = ep.maker.messages()
+    closing = ep.closing()
+    esc = ep.escapes()
+    out = ep.take() if not with_hs else b""
+    ep.finish()
+    closes = ep.maker.closes()
+    acc.classes.add(("seq", tkind, role, len(seq), with_hs, got == exp))
+    if got == exp and not closing and not esc and len(closes) == 1 and not out:
+        acc.inc("seq_delivered|%s|%s|%s" % (tkind, sid.partition(".")[0], fw))
+        return
+    d = "%s %s seq=%s cuts=%s%s -> delivered %d/%d %s closing=%s calls=%s escapes=%s wrote=%s onClose=%s" % (
+        tkind, sid, seq, cuts[:8], " (handshake coalesced)" if with_hs else "", len(got), len(exp),
+        "" if got == exp else "DIFFERENT", closing, ep.t.calls, esc[:2], out[:16].hex(), closes)
+    for e in esc:
+        acc.bad("C13|escape|%s|%s|after-attach" % (tag, exc_name(e)), d, rarg)
+    if got != exp:
+        acc.bad("C13|delivery|%s|%s" % (tag, "coalesced-handshake" if with_hs else "segmented"), d, rarg)
+    if closing and not esc:
+        acc.bad("C13|closed-on-valid-stream|%s" % tag, d, rarg)
+    if out:
+        acc.bad("C13|spurious-write|%s" % tag, d, rarg)
+    if len(closes) != 1:
+        acc.bad("C13|onclose-count|%s|%d" % (tag, len(closes)), d, rarg)
+
+
+# ---------------------------------------------------------------------------
+# E. corruptions at every position
+# ---------------------------------------------------------------------------
+CORRUPT_VARIANTS = {
+    "flip-type": {"rs": ["ping", "pong", "type3", "type7", "rsvbit"], "ws": ["opposite"]},
+    "truncated": ["minus1", "half"],
+    "garbage": ["utf8", "binary", "empty"],
+    "non-wamp": ["dict", "emptylist", "strtype", "unknowntype", "short-hello", "int"],
+    "session-protocol-error": [""],
+    "session-exception": [""],
+    "real-out-of-phase": [""],
+}
+BASE_SEQ = ["published", "event", "call"]
+
+
+def job_corrupt(a, acc):
+    tkind, role, sid = a["tkind"], a["role"], a["sid"]
+    for fbd in ((False, True) if tkind == "ws" else (None,)):
+        for ck in CORRUPTIONS:
+            vs = CORRUPT_VARIANTS[ck]
+            if isinstance(vs, dict):
+                vs = vs[tkind]
+            for v in vs:
+                for pos in ((0, 1) if ck == "real-out-of-phase" else (0, 1, 2)):
+                    for segmode in ("one", "frames", "bytes"):
+                        case_corrupt(acc, {"kind": "corrupt1", "tkind": tkind, "role": role, "sid": sid,
+                                           "fbd": fbd, "ck": ck, "variant": v, "pos": pos,
+                                           "segmode": segmode})
+    acc.samples.append({"kind": "corrupt", "transport": tkind, "role": role, "sid": sid,
+                        "cases": acc.evals})
+
+
+def _is_utf8(b):
+    try:
+        b.decode("utf8")
+        return True
+    except UnicodeDecodeError:
+        return False
+
+
+def case_corrupt(acc, a):
+    import struct
+    from harness import wamp_l2 as L
+    from ref import ws_frames as F
+    from autobahn.wamp import message as M, role as ROLE
+    fw = acc.fw
+    tkind, role, sid, ck, v, pos, fbd = a["tkind"], a["role"], a["sid"], a["ck"], a["variant"], a["pos"], a["fbd"]
+    tname = "rawsocket" if tkind == "rs" else "websocket"
+    tag = "%s-%s|%s" % (tname, role, fw)
+    acc.evals += 1
+    acc.inc("nontrivial")
+    binary = L.is_binary(sid)
+    ser = L.serializer(sid)
+    plan = {}
+    real = ck == "real-out-of-phase"
+    if real:
+        if pos == 0:
+            msgs = [M.Event(11, 22, args=[1]), M.Welcome(1234, {"broker": ROLE.RoleBrokerFeatures()})]
+        else:
+            msgs = [M.Welcome(1234, {"broker": ROLE.RoleBrokerFeatures()}), M.Result(777, args=[1]),
+                    M.Registered(778, 5)]
+    else:
+        msgs = [alphabet()[n] for n in BASE_SEQ]
+    frames = []
+    for m in msgs:
+        o, b = ser.serialize(m)
+        frames.append(peer_frame(tkind, role, o, b))
+    allowed_codes = {1002}
+    delivered_exp = pos
+    tolerated_alive = None        # three-valued cases: what must hold if the transport stays up
+    o, b = ser.serialize(msgs[pos])
+    if ck == "flip-type":
+        if tkind == "ws":
+            frames[pos] = peer_frame("ws", role, o, not b)
+            if b and not _is_utf8(o):
+                allowed_codes = {1002, 1007}      # RFC 6455: text frame with invalid UTF-8
+        elif v == "rsvbit":
+            frames[pos] = peer_frame("rs", role, o, b, 0, 1)
+            tolerated_alive = "all"               # reserved bits: ignore, or fail
+        else:
+            ft = {"ping": 1, "pong": 2, "type3": 3, "type7": 7}[v]
+            frames[pos] = peer_frame("rs", role, o, b, ft)
+            if ft in (1, 2):
+                tolerated_alive = "others"        # PING/PONG are legal frames: answer/ignore, or fail
+    elif ck in ("truncated", "garbage", "non-wamp"):
+        if ck == "truncated":
+            bad = o[:-1] if v == "minus1" else o[:len(o) // 2]
+        elif ck == "garbage":
+            bad = {"utf8": b"}{ not a message", "binary": b"\xff\xfe\x00\xc1garbage\x80", "empty": b""}[v]
+        else:
+            obj = {"dict": {"a": 1}, "emptylist": [], "strtype": ["x", 1], "unknowntype": [9999, 1],
+                   "short-hello": [1], "int": 5}[v]
+            bad = ser._serializer.serialize(obj)
+        try:
+            ok = L.wamp_decode(sid, bad, b)
+        except Exception:
+            ok = None
+        if ok is not None:
+            acc.inc("corruption_benign")
+            return
+        frames[pos] = peer_frame(tkind, role, bad, b)
+        if tkind == "ws" and not b and not _is_utf8(bad):
+            allowed_codes = {1002, 1007}
+    elif ck == "session-protocol-error":
+        plan = {"raise": {pos: "protocol"}}
+        delivered_exp = pos + 1
+    elif ck == "session-exception":
+        plan = {"raise": {pos: "runtime"}}
+        delivered_exp = pos + 1
+        allowed_codes = {1011}
+    else:
+        delivered_exp = pos + 1
+    maker = L.SessionMaker("real" if real else "rec", plan)
+    ws_opts = {"failByDrop": fbd} if tkind == "ws" else None
+    ep = L.open_endpoint(tkind, role, sid, maker=maker, ws_opts=ws_opts)
+    hello = ep.take()
+    stream = b"".join(frames)
+    if a["segmode"] == "one":
+        segs = [stream]
+    elif a["segmode"] == "frames":
+        segs = frames
+    else:
+        segs = [stream[i:i + 1] for i in range(len(stream))]
+    for s_ in segs:
+        if not ep.feed(s_):
+            break
+    ep.settle()
+    out = ep.take()
+    closing = ep.closing()
+    esc = ep.escapes()
+    code = None
+    nclose = 0
+    if tkind == "ws":
+        errs, wmsgs, wcloses = ep.parse_written(out)
+        nclose = len(wcloses)
+        if wcloses and len(wcloses[0]) >= 2:
+            code = struct.unpack("!H", wcloses[0][:2])[0]
+        closing = closing or (nclose > 0 and ep.proto.state != 3)
+        if nclose and not ep.closing():
+            # the peer completes the closing handshake
+            ep.feed(F.encode(8, wcloses[0][:2], mask=L.MASK if role == "server" else None))
+    ep.finish()
+    got = maker.messages()
+    closes = maker.closes()
+    d = "%s %s corruption=%s/%s at position %d, segmentation=%s%s -> delivered %d (expected %d) closing=%s calls=%s close frame=%s escapes=%s onClose=%s" % (
+        tkind, sid, ck, v, pos, a["segmode"], "" if fbd is None else " failByDrop=%s" % fbd,
+        len(got), delivered_exp, closing, ep.t.calls, code if nclose else None, esc[:2], closes)
+    acc.classes.add(("corrupt", tkind, role, ck, v, closing, code, len(got) == delivered_exp))
+    acc.inc("corrupt|%s|%s|%s" % (ck, tkind, fw))
+    for e in esc:
+        if tkind == "rs" and exc_name(e) in ("PayloadExceededError", "NotImplementedError"):
+            acc.inc("closed_via_escape|%s|%s|%s" % (exc_name(e), fw, ck + "/" + v))
+        else:
+            acc.bad("C13|escape|%s|%s|after-attach" % (tag, exc_name(e)), d, a)
+    if not closing:
+        if tolerated_alive is None:
+            acc.bad("C13|corruption-not-closed|%s|%s" % (tag, ck), d, a)
+            return
+        want = [m.marshal() for i, m in enumerate(msgs) if tolerated_alive == "all" or i != pos]
+        if got != want:
+            acc.bad("C13|corruption-tolerated-but-stream-damaged|%s|%s/%s" % (tag, ck, v), d, a)
+        else:
+            acc.inc("tolerated|%s|%s" % (v, fw))
+        return
+    if len(got) != delivered_exp or got[:pos] != [m.marshal() for m in msgs[:pos]]:
+        sub = "delivered-after-failure" if len(got) > delivered_exp else "lost-before-failure"
+        acc.bad("C13|%s|%s|%s" % (sub, tag, a["segmode"]), d, a)
+    if tkind == "ws":
+        if fbd:
+            if nclose:
+                acc.bad("C13|closeframe-despite-failByDrop|%s" % tag, d, a)
+            else:
+                acc.inc("ws_drop|%s" % fw)
+        else:
+            if nclose != 1 or code not in allowed_codes:
+                acc.bad("C13|close-status|%s|%s|got-%s" % (tag, ck, code), d + " allowed %s" % sorted(allowed_codes), a)
+            else:
+                acc.inc("ws_close_%d|%s" % (code, fw))
+    if len(closes) != 1:
+        acc.bad("C13|onclose-count|%s|%d" % (tag, len(closes)), d, a)
+    else:
+        acc.inc("onclose_once|%s|%s" % (tkind, fw))
+    # the transport is gone: ITransport reports so and writes nothing
+    n0 = len(ep.t.written)
+    err = ep.send(alphabet()["call"])
+    try:
+        still = ep.proto.isOpen()
+    except Exception as e:
+        still = repr(e)
+    if err is None or still is not False or len(ep.t.written) != n0:
+        acc.bad("C13|open-after-close|%s" % tag,
+                d + "; after onClose: isOpen()=%r send() raised %r wrote %d" % (
+                    still, err, len(ep.t.written) - n0), a)
+    if ep.escapes() != esc:
+        acc.bad("C13|escape|%s|%s|teardown" % (tag, exc_name(ep.escapes()[-1])), d, a)
+
+
+# ---------------------------------------------------------------------------
+# F. real client <-> real server of the same framework
+# ---------------------------------------------------------------------------
+def job_pair(a, acc):
+    tkind, sid, tier = a["tkind"], a["sid"], a["tier"]
+    if tkind == "rs":
+        exps = [None]
+        if acc.fw == "tx":
+            exps += list(range(0, 12)) if tier == "thorough" else [0, 1, 5]
+        for cexp in exps:
+            for sexp in exps:
+                for chunk in (None, 1, 5):
+                    case_pair(acc, {"kind": "pair1", "tkind": "rs", "sid": sid, "cexp": cexp,
+                                    "sexp": sexp, "chunk": chunk, "fbd": None, "raise_at": None})
+        for side in ("client", "server"):
+            for how in ("protocol", "runtime"):
+                case_pair(acc, {"kind": "pair1", "tkind": "rs", "sid": sid, "cexp": None, "sexp": None,
+                                "chunk": None, "fbd": None, "raise_at": [side, 1, how]})
+    else:
+        for fbd in (True, False):
+            for size in (None, 600):
+                for chunk in (None, 1, 5):
+                    case_pair(acc, {"kind": "pair1", "tkind": "ws", "sid": sid, "cexp": size,
+                                    "sexp": size, "chunk": chunk, "fbd": fbd, "raise_at": None})
+            for side in ("client", "server"):
+                for how in ("protocol", "runtime"):
+                    case_pair(acc, {"kind": "pair1", "tkind": "ws", "sid": sid, "cexp": None,
+                                    "sexp": None, "chunk": None, "fbd": fbd, "raise_at": [side, 1, how]})
+    acc.samples.append({"kind": "pair", "transport": tkind, "sid": sid, "cases": acc.evals})
+
+
+def case_pair(acc, a):
+    from harness import wamp_l2 as L
+    from ref import rawsocket as R
+    from ref import ws_frames as F
+    fw = acc.fw
+    tkind, sid = a["tkind"], a["sid"]
+    acc.evals += 1
+    acc.inc("nontrivial")
+    tag = "%s-pair|%s" % ("rawsocket" if tkind == "rs" else "websocket", fw)
+    ra = a.get("raise_at")
+    cplan = {"raise": {ra[1]: ra[2]}} if ra and ra[0] == "client" else {}
+    splan = {"raise": {ra[1]: ra[2]}} if ra and ra[0] == "server" else {}
+    cm, sm = L.SessionMaker("rec", cplan), L.SessionMaker("rec", splan)
+    if tkind == "rs":
+        lim = {"c": R.max_len(a["cexp"]) if a["cexp"] is not None else 1 << 24,
+               "s": R.max_len(a["sexp"]) if a["sexp"] is not None else 1 << 24}
+        p = L.Pair("rs", [sid], [sid], cm, sm,
+                   cmax=None if a["cexp"] is None else lim["c"],
+                   smax=None if a["sexp"] is None else lim["s"])
+    else:
+        o = {"failByDrop": a["fbd"]}
+        if a["cexp"]:
+            o["maxMessagePayloadSize"] = a["cexp"]
+        lim = {"c": a["cexp"] or (1 << 24), "s": a["sexp"] or (1 << 24)}
+        p = L.Pair("ws", [sid], [sid], cm, sm, copts=o, sopts=dict(o))
+    p.pump()
+    d0 = "%s %s client max %s server max %s chunk=%s failByDrop=%s raise=%s" % (
+        tkind, sid, a["cexp"], a["sexp"], a["chunk"], a["fbd"], ra)
+    if not (cm.attached() and sm.attached()):
+        acc.bad("C13|valid-refused|%s" % tag, d0 + " -> attached c=%s s=%s escapes=%s" % (
+            cm.attached(), sm.attached(), p.escapes()), a)
+        return
+    hs = {k: len(v) for k, v in p.log.items()}
+    names = ["publish", "unregistered", "event"]
+    plan = [("c", n) for n in names] + [("s", n) for n in reversed(names)]
+    sent = {"c": [], "s": []}
+    for side, n in plan:
+        conn = p.c if side == "c" else p.s
+        try:
+            conn.proto.send(alphabet()[n])
+            sent[side].append(alphabet()[n])
+        except Exception as e:
+            acc.bad("C13|send-raised|%s" % tag, d0 + " send(%s) raised %r" % (n, e), a)
+    # limits (not with a failing session): a message of exactly the receiver's maximum, then one more octet
+    over = {}
+    if not ra and (a["cexp"] is not None or a["sexp"] is not None) and max(lim.values()) <= 1 << 20:
+        for side, peer in (("c", "s"), ("s", "c")):
+            conn = p.c if side == "c" else p.s
+            # RawSocket: the RECEIVER's announcement limits the sender; WebSocket: the sender's own setting
+            limit = lim[peer] if tkind == "rs" else lim[side]
+            m_ok, _ = sized_message(sid, limit)
+            m_over, _ = sized_message(sid, limit + 1)
+            n0 = len(conn.transport.written)
+            try:
+                conn.proto.send(m_ok)
+                sent[side].append(m_ok)
+            except Exception as e:
+                acc.bad("C13|within-limit-send-failed|%s" % tag, d0 + " %d octets raised %r" % (limit, e), a)
+            n1 = len(conn.transport.written)
+            try:
+                conn.proto.send(m_over)
+                over[side] = None
+            except Exception as e:
+                over[side] = e
+            if over[side] is None or len(conn.transport.written) != n1:
+                acc.bad("C13|overlimit-send-not-refused|%s" % tag,
+                        d0 + " %s sent %d octets (limit %d): exception=%r wrote %d" % (
+                            side, limit + 1, limit, over[side], len(conn.transport.written) - n1), a)
+            else:
+                acc.inc("pair_overlimit_refused|%s" % fw)
+    p.collect()
+    # what each side wrote, judged by the reference framing
+    for side, direction in (("c", "c2s"), ("s", "s2c")):
+        out = bytes(p.log[direction][hs[direction]:])
+        want = [L.wamp_octets(sid, m) for m in sent[side]]
+        if tkind == "rs":
+            errs, msgs, pings, pongs = R.check_sender_stream(out, lim["s" if side == "c" else "c"])
+            got = msgs
+            wantp = [w[0] for w in want]
+        else:
+            errs, msgs, ctrls, _ = F.check_sender_stream(out, side == "c")
+            got = [(x[0], x[1]) for x in msgs]
+            wantp = want
+        if errs or got != wantp:
+            acc.bad("C13|wire|%s|%s" % (tag, side), d0 + " wire errors=%s frames=%d expected %d" % (
+                errs[:1], len(got), len(wantp)), a)
+    # delivery, optionally in small chunks, alternating directions
+    chunk = a["chunk"]
+    for _ in range(400000):
+        p.collect()
+        if not p.wire["c2s"] and not p.wire["s2c"]:
+            break
+        for direction in ("c2s", "s2c"):
+            if p.wire[direction]:
+                if p.deliver(direction, chunk) == 0:
+                    break
+                dst = p.s if direction == "c2s" else p.c
+                if dst.lost or not dst.transport.reading():
+                    p.wire[direction].clear()
+    else:
+        raise RuntimeError("harness: pair wire does not drain")
+    got_s, got_c = sm.messages(), cm.messages()
+    exp_s = [m.marshal() for m in sent["c"]]
+    exp_c = [m.marshal() for m in sent["s"]]
+    d = d0 + " -> server session got %d/%d, client session got %d/%d, escapes=%s calls c=%s s=%s" % (
+        len(got_s), len(exp_s), len(got_c), len(exp_c), p.escapes()[:2], p.c.transport.calls,
+        p.s.transport.calls)
+    acc.classes.add(("pair", tkind, bool(ra), a["chunk"], got_s == exp_s, got_c == exp_c))
+    for e in p.escapes():
+        acc.bad("C13|escape|%s|%s" % (tag, exc_name(e)), d, a)
+    if not ra:
+        if got_s != exp_s or got_c != exp_c:
+            acc.bad("C13|delivery|%s|segmented" % tag, d, a)
+        else:
+            acc.inc("pair_delivered|%s|%s" % (tkind, fw))
+        p.c.peer_drop(False)
+        p.c.settle()
+    else:
+        # the failing side got 2 messages (the second one raised), the other side everything
+        failing, other = (got_c, got_s) if ra[0] == "client" else (got_s, got_c)
+        if len(failing) != 2:
+            acc.bad("C13|delivered-after-failure|%s|session-raise" % tag, d, a)
+        else:
+            acc.inc("pair_session_failure|%s|%s" % (tkind, fw))
+    p.drops()
+    p.pump()
+    p.drops()
+    if len(cm.closes()) != 1 or len(sm.closes()) != 1:
+        acc.bad("C13|onclose-count|%s" % tag, d + " onClose c=%s s=%s lost c=%s s=%s" % (
+            cm.closes(), sm.closes(), p.c.lost, p.s.lost), a)
+    else:
+        acc.inc("pair_onclose_once|%s" % fw)
